@@ -90,7 +90,7 @@ def gen_slices(ctx, rnd, out):
             s = LETTERS8[:n]
             FAR = ("None", "-1000000", "1000000", "2147483647", "-2147483648", "2147483648", "-2147483649", "4611686018427387904",
                    "-4611686018427387904", "18446744073709551616", "-18446744073709551616")
-            for lo, hi, st in itertools.product(FAR, FAR, ("None", "-1000000", "1000000", "2147483647", "-2147483648")):
+            for lo, hi, st in itertools.product(FAR, FAR, ("None", "-1000000", "1000000", "2147483647", "-2147483648", "2147483648", "-4611686018427387904", "18446744073709551616")):
                 if ty == "range":
                     continue
                 # an index beyond int32 is clamped like any other far index: the oracle gets +-10^6 in its place (TLC integers are 32-bit)
